@@ -145,6 +145,38 @@ class PowerMemory:
         self.mod.Light.set_power = self.orig
 
 
+_WEB = {}
+
+
+def web_capture(ctx, pop, lights, text):
+    """Press Capture with every component at 65535 (a long script), then with the real state; return the file's content."""
+    import os
+    import tempfile
+    try:
+        if 'mod' not in _WEB:
+            import flask_stub
+            flask_stub.install()
+            from web import web_app
+            _WEB['mod'] = web_app
+            _WEB['dir'] = tempfile.mkdtemp(prefix='c18web')
+        from bardolph.lib import settings
+        settings.Settings._the_config['script_path'] = _WEB['dir']
+        big = [65535, 65535, 65535, 65535]
+        for nm, kind, st in pop:
+            put_state(lights[nm], kind, {'color': big, 'power': True, 'zones': [big] * len(st.get('zones', [])), 'cells': [big] * len(st.get('cells', []))})
+        _WEB['mod'].WebApp.snapshot(object())
+        for nm, kind, st in pop:
+            put_state(lights[nm], kind, st)
+        _WEB['mod'].WebApp.snapshot(object())
+        with open(os.path.join(_WEB['dir'], '__snapshot__.ls')) as f:
+            return f.read()
+    except Exception as ex:
+        if not _WEB.get('reported'):
+            _WEB['reported'] = True
+            ctx.broken_tie('harness', 'web capture', '%s: %s' % (type(ex).__name__, str(ex)[:200]))
+        return None
+
+
 def one_case(ctx, rng, pop):
     from bardolph.lib import injection
     from bardolph.controller import i_controller
@@ -167,6 +199,12 @@ def one_case(ctx, rng, pop):
             ctx.counterexample('C18/capture-raises', 'capturing the population raises %s: %s' % (type(ex).__name__, str(ex)[:80]), {'population': pop})
             return res
         res['text'] = text
+        # the web Capture button: WebApp.snapshot writes the same text to <script_path>/__snapshot__.ls; pressed twice,
+        # the file holds the second capture only
+        web_text = web_capture(ctx, pop, lights, text)
+        if web_text is not None and web_text != text:
+            ctx.counterexample('C18/web-capture-file-differs', 'after two presses of Capture the file __snapshot__.ls is not the script of the current state: %r ... instead of %r ...'
+                               % (web_text[-60:], text[-60:]), {'population': pop, 'text': text, 'file': web_text})
         for nm, kind, st in pop:
             if read_state(lights[nm], kind) != st:
                 ctx.counterexample('C18/capture-changes-state', 'capturing changed the state of %r' % nm, {'population': pop})
